@@ -15,9 +15,12 @@ VARIABLE vec
 UpdVecs == {[kind |-> "upd", asn4 |-> TRUE, var |-> Canon, u |-> u] : u \in UpdatePool(TRUE)}
            \cup {[kind |-> "upd", asn4 |-> FALSE, var |-> Canon, u |-> u] : u \in UpdatePool(FALSE)}
 Many == {x \in UpdatePool(TRUE) : Len(x.attrs) >= 4}
+Many2 == {x \in UpdatePool(FALSE) : Len(x.attrs) >= 4}
 VarVecs == {[kind |-> "updvar", asn4 |-> TRUE, var |-> v, u |-> u] : v \in Variants \ {Canon}, u \in UpdatePool(TRUE)}
            \cup {[kind |-> "updvar", asn4 |-> FALSE, var |-> v, u |-> u] : v \in Variants \ {Canon}, u \in UpdatePool(FALSE)}
            \cup {[kind |-> "updvar", asn4 |-> FALSE, var |-> v, u |-> u] : v \in {Canon, [ext |-> TRUE, dirty |-> FALSE, pathids |-> FALSE]}, u \in DecodeOnly}
+           \cup UNION {{[kind |-> "updvar", asn4 |-> FALSE, var |-> Canon, u |-> [u EXCEPT !.attrs = ordr]] : ordr \in Orders(u.attrs)} : u \in DecodeOnly}
+           \cup UNION {{[kind |-> "updvar", asn4 |-> FALSE, var |-> Canon, u |-> [u EXCEPT !.attrs = ordr]] : ordr \in {Reverse(u.attrs), Rotate(u.attrs)}} : u \in Many2}
            \cup {[kind |-> "updvar", asn4 |-> TRUE, var |-> Canon, u |-> [u EXCEPT !.attrs = Reverse(u.attrs)]] : u \in Many}
            \cup {[kind |-> "updvar", asn4 |-> TRUE, var |-> Canon, u |-> [u EXCEPT !.attrs = Rotate(u.attrs)]] : u \in Many}
 CorVecs == {[kind |-> "cor", asn4 |-> TRUE, var |-> Canon, u |-> c] : c \in Corruptions}
